@@ -164,6 +164,8 @@ static int encode_special_opd(struct instr *instrc, int m, int i) {
     }
     if (instrc->opd[m].reg & REG_RB)
       instrc->hex.rex |= rex_ + rex_b;
+    if (instrc->opd[m].index & REG_RB)
+      instrc->hex.rex |= rex_ + rex_x;
     FAIL_IF(get_reg(instrc, &instrc->opd[m], reg_r));
     instrc->rd_offset = (instrc->opd[m].reg & VALUE_MASK);
     if (instrc->mem_disp)
